@@ -1,7 +1,104 @@
-"""C16 tree builder and block signer yield a valid inclusion proof for every leaf."""
+"""C16 tree builder and block signer yield a valid inclusion proof for every leaf.
+
+Driver harness/c16_tree.c; reference = aggregation step + binary-counter forest of DESIGN.md Appendix A on OpenSSL EVP.
+Sub-workloads (one process per shard):
+  exh    every leaf count 1..64 x uniform level 0/1/7 x every maxTreeLevel {off,1..12,250..255}; seed independent
+  rnd    random level mixes 0..255 (and invalid levels), metadata leaves, maximum levels, a harness leaf processor
+  carry  maximum level off: a leaf whose carry overflows 255 at a slot >= 1, more leaves, close, all proofs
+  leak   the same behind a leaf processor (refusal paths that can leak even when they are memory safe)
+  bs     block signer: masking x per-leaf metadata x reset at arbitrary points; signing goes through the real
+         KSI_Signature_signAggregatedWithPolicy and the file:// client, the harness only places a response for the
+         requested root (simulated aggregator, interposed with -Wl,--wrap)
+"""
+import os
+
 LEVEL = 'exploration'
+SHARDS = 16
+
+
+def _collect(ctx, exe, arglists, timeout=1800):
+    return ctx.parallel(list(enumerate(arglists)),
+                        lambda ia: ctx._run_driver_collect(exe, ia[1], timeout, '%s%d' % (ia[1][0], ia[0]), None))
 
 
 def run(ctx):
     exe = ctx.driver('c16_tree', ['c16_tree.c'], wraps=['KSI_Signature_signAggregatedWithPolicy'])
-    fin = ctx.run_shards(exe, [['exh', i, 16, 64] for i in range(16)])
+    quick = ctx.tier == 'quick'
+    only = os.environ.get('C16_ONLY', '').split(',') if os.environ.get('C16_ONLY') else None
+    want = lambda m: only is None or m in only
+    s = ctx.seed * 100000
+    n_rnd = 1500 if quick else 40000        # trees per shard
+    n_bs = 60 if quick else 2500            # block cases per shard (each: 1-5 signed blocks of up to 40 leaves)
+    n_carry = 40 if quick else 4000         # scenarios per process
+    n_leak = 20 if quick else 1000
+    ctx.rule = ('tree builder: EXHAUSTIVE leaf counts 1..64 x uniform level {0,1,7} x maxTreeLevel {off,1..12,250..255} (+ other hash '
+                'algorithms, metadata at every third position, a one-sibling leaf processor), every accepted leaf\'s chain folded; random trees of '
+                '1..300 leaves with 9 level profiles over 0..255 incl. invalid levels, metadata leaves at random positions, maxTreeLevel from '
+                '{<=0,1..12,13..249,250..255}; scenarios whose carry chain overflows level 255 at slot >= 1 with the maximum switched off. '
+                'block signer: random blocks of 1..40 leaves, masking on/off (iv 1..64 bytes, zero/random previous leaf), metadata none/all/mixed, '
+                'leaf levels, 0..3 earlier blocks (signed or not) each followed by KSI_BlockSigner_reset, compared byte for byte with a fresh '
+                'signer. distinct = distinct (algorithm, max level, processor, level/kind sequence) trees plus (tree, leaf) proofs, resp. '
+                '(block parameters, leaf) signatures, by 64-bit hash.')
+    ctx.assumptions = ['reference fold / forest / signature reader in harness/c16_tree.c on OpenSSL EVP (independent of libksi)',
+                       'maxTreeLevel is set through the public struct in tree_builder.h (no setter exists)',
+                       'bytes of a metadata leaf are taken from the library and validated structurally (padding TLV + reference-encoded fields)',
+                       'simulated aggregator: response for the requested root encoded by the harness (1-2 chains, HMAC "anon"), no calendar chain; '
+                       'request id read from ctx->netProvider->requestCount',
+                       'unjustified refusals (leaf refused although it fits) are counted, not flagged: the statement does not forbid them',
+                       'a failing close / refusal that only leaks memory is recorded as an observation, not as a violation (C16 forbids corruption)',
+                       'ASan+UBSan build of the library']
+    ctx.exhaustive = False
+    fin = need = 0
+    if want('exh'):
+        need += SHARDS
+        fin += ctx.run_shards(exe, [['exh', i, SHARDS, 64] for i in range(SHARDS)])
+        ctx.exhaustive = True       # the uniform-level sub-space is enumerated completely (the rest is sampled)
+    if want('rnd'):
+        need += SHARDS
+        fin += ctx.run_shards(exe, [['rnd', s + i, n_rnd] for i in range(SHARDS)])
+    if want('bs'):
+        need += SHARDS
+        fin += ctx.run_shards(exe, [['bs', s + 500 + i, n_bs] for i in range(SHARDS)])
+    if want('carry'):
+        # a memory error ends the process at its first scenario: many small processes, and a key that names the situation
+        for r in _collect(ctx, exe, [['carry', s + 1000 + i, n_carry] for i in range(SHARDS)]):
+            need += 1
+            fin += ctx._absorb_collected(r, crash_key_prefix='treebuilder:refusal-mid-carry:')
+    if want('leak'):
+        obs = []
+        for r in _collect(ctx, exe, [['leak', s + 2000 + i, n_leak] for i in range(4)]):
+            need += 1
+            err = r['err']
+            if r['rc'] not in (0, None) and 'LeakSanitizer' in err and 'ERROR: AddressSanitizer' not in err and 'runtime error' not in err:
+                # refused leaf behind a leaf processor: memory safe but the joined node is lost. Not what C16 forbids.
+                if ctx.absorb(r['out']):
+                    fin += 1
+                ctx.count('observation_refusal_path_leak_reports')
+                if not obs:
+                    obs.append('LeakSanitizer after a refused leaf behind a leaf processor (case %s): %s' % (r['case'][:200], err[:1200]))
+            else:
+                fin += ctx._absorb_collected(r, crash_key_prefix='treebuilder:refusal-behind-processor:')
+        if obs:
+            ctx.extra['observations'] = obs
+    c = ctx.counters
+    if c.get('close_refused_orphaned_subtrees'):
+        ctx.extra.setdefault('observations', []).append(
+            'KSI_TreeBuilder_close failing on level overflow left %d sub-trees unreachable in %d closes (freed by the harness; leak, not corruption)'
+            % (c['close_refused_orphaned_subtrees'], c.get('close_refused_level_overflow', 0)))
+    bad = ctx.violations or ctx.known_printed
+    ctx.require(fin == need or bad, 'all driver processes finish (%d of %d)' % (fin, need))
+    if bad or only:
+        return
+    ctx.require(c.get('exhaustive_trees', 0) >= 64 * 3 * 19, 'exhaustive uniform-level trees (%s)' % c.get('exhaustive_trees'))
+    ctx.require(c.get('proofs_ok', 0) > 150000, 'leaf proofs folded (%s)' % c.get('proofs_ok'))
+    ctx.require(c.get('roots_canonical_after_refusal', 0) > 500 and c.get('refused_max_level', 0) > 1000 and c.get('refused_overflow_255', 0) > 100,
+                'refusals followed by a checked close')
+    ctx.require(c.get('metadata_payload_checked', 0) > 1000 and c.get('skipped_metadata_encoding_unexpected', 0) == 0, 'metadata leaves checked')
+    ctx.require(c.get('mid_carry_scenarios', 0) >= SHARDS * n_carry // 2 and c.get('refused_mid_carry_max_off', 0) >= c.get('mid_carry_scenarios', 0)
+                and c.get('roots_canonical_after_mid_carry_refusal', 0) >= SHARDS * n_carry // 8,
+                'refusals in the middle of a carry chain (%s scenarios, %s closed and proved afterwards)' % (
+                    c.get('mid_carry_scenarios'), c.get('roots_canonical_after_mid_carry_refusal')))
+    ctx.require(c.get('signatures_prove_leaf', 0) > 5000 and c.get('blocks_signed_and_checked', 0) > 500, 'block signer signatures checked')
+    ctx.require(c.get('reset_equals_fresh', 0) > 200 and c.get('mask_links_ok', 0) > 2000 and c.get('metadata_links_ok', 0) > 2000,
+                'reset-vs-fresh comparisons, mask and metadata links')
+    ctx.require(c.get('skipped_out_of_domain', 0) * 20 < ctx.evaluations, 'few skipped cases')
